@@ -23,10 +23,6 @@ func (s S0) valA() uint64 {
 	return s.a + 1
 }
 
-func (s *S0) add2m(x uint64, y uint64) uint64 {
-	return s.a + x*3 + y
-}
-
 '''
 
 HELPERS_REST = '''
@@ -40,6 +36,10 @@ func two() (uint64, uint64) {
 
 func id(x uint64) uint64 {
 	return x
+}
+
+func (s *S0) add2m(x uint64, y uint64) uint64 {
+	return s.a + x*3 + y
 }
 
 func add2(x uint64, y uint64) uint64 {
